@@ -293,6 +293,13 @@ func (p *Packer) packWalkFn(root, src, dst string, tarW *tar.Writer, meta *Meta,
 				return filepath.Walk(resolved.absTarget, p.packWalkFn(root, resolved.absTarget, archivePath, tarW, meta, ignoreRules))
 			}
 
+			// Anything but a directory or a regular file (a fifo, a device, a
+			// socket) is left out, just as it is when it lies inside the
+			// source directory itself: opening it could block forever.
+			if !resolved.info.Mode().IsRegular() {
+				return nil
+			}
+
 			// Dereference this symlink by updating the header with the target file
 			// details and set writeBody to true so the body will be written.
 			header.Typeflag = tar.TypeReg
